@@ -96,6 +96,11 @@ func (s *NotifyFollowReader) Read(buf []byte) (int, error) {
 		case <-s.eventDelete:
 			if s.ReOpen {
 				s.closeFile()
+				// The path may already exist again: its create/write signal can have been
+				// consumed while the old file was still open, and no further signal would come
+				if f, err := os.Open(s.filename); err == nil {
+					s.f = f
+				}
 			} else {
 				s.Close()
 				return 0, io.EOF
